@@ -17,6 +17,10 @@ type E1 struct {
 	Scenarios []*vrt.Scenario
 	Deadline  time.Time
 	Workers   int
+	// Shard: explore scenarios one after the other, handing subtrees of each
+	// to the worker processes (for few, very large scenarios). Default: whole
+	// scenarios are explored in parallel, one per worker process.
+	Shard bool
 	// SigOf maps an oracle message to the signature used for known findings
 	// (default: scenario-independent first line of the message).
 	SigOf func(scn string, msg string) string
@@ -46,6 +50,11 @@ func (e *E1) Run() map[string]interface{} {
 	if e.Rep.ReplayOnly != "" {
 		e.replay(e.Rep.ReplayOnly)
 	}
+	vrt.OnStuck = func(reason string, choices []int) {
+		// only reachable in the master process (workers install their own hook)
+		e.Rep.Violation(firstLine(reason), reason, E1Replay{Prefix: choices, Msg: reason})
+		e.Rep.Finish(map[string]interface{}{"states": 1, "transitions": 1, "traces_validated_against_impl": 0, "samples": []string{"execution stuck, see violation"}, "exhaustive": false})
+	}
 	if e.Workers == 0 {
 		e.Workers = runtime.NumCPU()
 	}
@@ -55,7 +64,7 @@ func (e *E1) Run() map[string]interface{} {
 	var samples []interface{}
 	choiceStates := int64(0)
 	var many []*vrt.Stats
-	if len(e.Scenarios) >= 2*e.Workers && e.Workers > 1 {
+	if len(e.Scenarios) >= 2 && e.Workers > 1 && !e.Shard {
 		var infra string
 		many, infra = vrt.ExploreMany(e.Scenarios, vrt.ExploreOpts{Workers: e.Workers, Deadline: e.Deadline, Recheck: 97})
 		if infra != "" {
@@ -86,17 +95,22 @@ func (e *E1) Run() map[string]interface{} {
 		}
 		for _, v := range st.Violations {
 			_, _, _ = v, s, st
-			r, _, msg := vrt.Replay(s, v.Prefix, v.Widths)
-			var tr []string
-			for _, p := range r.Trace {
-				tr = append(tr, p.Desc)
+			var tr, lg []string
+			msg := v.Msg
+			if v.Outcome != "stuck" { // replaying a stuck execution would hang again
+				r, _, m := vrt.Replay(s, v.Prefix, v.Widths)
+				msg = m
+				for _, p := range r.Trace {
+					tr = append(tr, p.Desc)
+				}
+				lg = r.Log
 			}
 			sig := firstLine(v.Msg)
 			if e.SigOf != nil {
 				sig = e.SigOf(s.Name, v.Msg)
 			}
 			e.Rep.Violation(sig, fmt.Sprintf("scenario %s (deviations %d): %s", s.Name, v.Cost, v.Msg),
-				E1Replay{Scenario: s.Name, Prefix: v.Prefix, Widths: v.Widths, Msg: msg, Trace: tr, Log: r.Log})
+				E1Replay{Scenario: s.Name, Prefix: v.Prefix, Widths: v.Widths, Msg: msg, Trace: tr, Log: lg})
 		}
 		if st.Capped {
 			exhaustive = false
@@ -109,6 +123,12 @@ func (e *E1) Run() map[string]interface{} {
 		for k, v := range st.Outcomes {
 			total.Outcomes[s.Name+"|"+k] += v
 		}
+		for k, v := range st.Counters {
+			if total.Counters == nil {
+				total.Counters = map[string]int64{}
+			}
+			total.Counters[k] += v
+		}
 		total.Executions += st.Executions
 		total.Points += st.Points
 		total.Rechecked += st.Rechecked
@@ -119,6 +139,12 @@ func (e *E1) Run() map[string]interface{} {
 		choiceStates += st.Points
 	}
 	if len(perScn) > 60 {
+		// keep the largest ones
+		sort.SliceStable(perScn, func(i, j int) bool {
+			a, _ := perScn[i]["executions"].(int64)
+			b, _ := perScn[j]["executions"].(int64)
+			return a > b
+		})
 		perScn = append(perScn[:60], map[string]interface{}{"more": len(perScn) - 60})
 	}
 	if total.Executions == 0 {
@@ -137,6 +163,7 @@ func (e *E1) Run() map[string]interface{} {
 		"step_limit_hits":               total.StepLimits,
 		"exhaustive":                    exhaustive,
 		"per_scenario":                  perScn,
+		"counters":                      total.Counters,
 		"samples":                       samples,
 		"explanation":                   "states = scheduling/choice points visited (world stopped, enabled set computed); transitions = transitions fired; every trace is an execution of the instrumented real code, so traces_validated_against_impl = executions",
 	}
